@@ -9,6 +9,8 @@ package poolsim
 import (
 	"fmt"
 	"math"
+	"os"
+	"path/filepath"
 	"strings"
 
 	ad "github.com/pbenner/autodiff"
@@ -189,6 +191,22 @@ func compare(c *core.Ctx, what string, cfg poolCfg, seq, par outcome, tol float6
 	if i, ok := sameVec(seq.extra, par.extra, tol); !ok {
 		c.Fail("schedule-independence", what+"|values-differ", "%s: value %d differs between the sequential run and the run with pool (%s): sequential %v, parallel %v", what, i, cfg, seq.extra, par.extra)
 	}
+}
+
+// scratchFile: a file name in a per-process scratch directory (for the
+// SaveFile / Trace options of the EM estimators), removed at exit.
+var scratchDir string
+
+func scratchFile(name string) string {
+	if scratchDir == "" {
+		d, err := os.MkdirTemp("", "verif-pool-")
+		if err != nil {
+			panic(err)
+		}
+		scratchDir = d
+		core.ExitHooks = append(core.ExitHooks, func() { os.RemoveAll(scratchDir) })
+	}
+	return filepath.Join(scratchDir, name)
 }
 
 // shiftGamma adds a common offset to all log-weights (weights scaled by a
